@@ -23,6 +23,7 @@ From NV Require Import Cram.Bytes Cram.Itf8 Cram.Ltf8 Cram.Vlq Cram.IntProofs Cr
   Cram.Nx16O1 Cram.Nx16O1Defs Cram.Nx16O1Proofs Cram.Nx16O1Table Cram.Nx16O1Count Cram.Nx16Full
   Cram.Nx16FullProofs Cram.Nx16O1Total Cram.Nx16O1Full Cram.Nx16Stripe Cram.Nx16StripeLists Cram.Nx16StripeProofs Cram.Aac Cram.AacModes Cram.AacRle
   Cram.AacModesProofs Cram.AacRange Cram.AacProofs Cram.AacTotal Cram.AacModesRt Cram.AacRleRt Cram.AacStripeProofs Cram.AacAll Cram.AacModesTotal Cram.Fqz Cram.FqzProofs Cram.FqzTotal.
+From NV Require Cram.Names Cram.NamesTotal Cram.NamesProofs Cram.NamesRt Cram.NamesRt2.
 Import ListNotations.
 Open Scope N_scope.
 
@@ -515,6 +516,78 @@ Theorem c08_fqz_decode_never_panics : forall bs,
   Forall (fun b => b < 256) bs -> fqz_decode bs <> FPanic.
 Proof. exact fqz_decode_never_panics. Qed.
 Print Assumptions c08_fqz_decode_never_panics.
+
+(* ---------------- name tokenizer ---------------- *)
+
+(* the name tokenizer decoder -- header, token byte streams (each an rANS Nx16 or an arithmetic
+   coder stream, duplicated streams, implicit types), token readers, names loop -- never panics on
+   any byte string *)
+Theorem c08_names_decode_never_panics : forall bs,
+  Forall (fun b => b < 256) bs -> NV.Cram.Names.names_decode bs <> NV.Cram.Names.NmPanic.
+Proof. exact NV.Cram.NamesTotal.names_decode_never_panics. Qed.
+Print Assumptions c08_names_decode_never_panics.
+
+(* building blocks of the name tokenizer round trip: (1) the entropy stage of every token byte stream --
+   rans_nx16::encode(Flags::empty(), buf) decoded by rans_nx16::decode(.., 0) -- returns the buffer;
+   (2) the tokens spell the name, none is empty, there are at most 126, and with fewer than 126 every
+   token is purely alphanumeric or purely not, where parse_u32 is the plain decimal value (the '+'
+   that lexical_core accepts cannot occur) *)
+Theorem c08_names_entropy_roundtrip_partial : forall buf,
+  Forall (fun b => b < 256) buf -> N.of_nat (length buf) < 268435456 ->
+  exists e, nx_encode_s_byte 0 buf = NeOk e /\ nx_decode_s e 0 = DOk buf.
+Proof. exact NV.Cram.NamesProofs.names_entropy_roundtrip. Qed.
+Print Assumptions c08_names_entropy_roundtrip_partial.
+
+Theorem c08_names_tokenize_partial : forall b,
+  concat (NV.Cram.Names.tokenize b) = b /\
+  Forall (fun t => t <> []) (NV.Cram.Names.tokenize b) /\
+  (length (NV.Cram.Names.tokenize b) <= 126)%nat /\
+  ((length (NV.Cram.Names.tokenize b) < 126)%nat ->
+   Forall (fun t => NV.Cram.NamesProofs.homog t /\
+                    NV.Cram.Names.parse_u32 t = NV.Cram.Names.digits_val t 0) (NV.Cram.Names.tokenize b)).
+Proof.
+  intros b. split; [apply NV.Cram.NamesProofs.tokenize_concat|].
+  split; [apply NV.Cram.NamesProofs.tokenize_nonempty|].
+  split; [apply NV.Cram.NamesProofs.tokenize_count|].
+  intros H. pose proof (NV.Cram.NamesProofs.tokenize_homog b H) as Hh.
+  pose proof (NV.Cram.NamesProofs.tokenize_nonempty b) as Hn.
+  rewrite Forall_forall in *. intros t Ht. split; [apply Hh; exact Ht|].
+  apply NV.Cram.NamesProofs.parse_u32_homog; [apply Hh; exact Ht|apply Hn; exact Ht].
+Qed.
+Print Assumptions c08_names_tokenize_partial.
+
+(* THE WHOLE CODEC: for every well-formed name list -- NUL-terminated names, bytes, shorter than
+   2^28, fewer than 2^26 names, EVERY NAME WITH FEWER THAN 126 TOKENS (which excludes the known class
+   refuted below) -- the model of name_tokenizer::encode answers and the model of
+   name_tokenizer::decode returns exactly the input: tokens (Match, Delta, Delta0, padded and plain
+   digits, chars, strings) read back against the previous name's tokens, the ten byte streams of
+   every token column compressed and rebuilt, duplicates copied from their first occurrence, names
+   joined with NUL *)
+Theorem c08_names_roundtrip : forall src,
+  NV.Cram.NamesRt.names_wf src ->
+  exists bytes, NV.Cram.Names.names_encode src = NV.Cram.Names.NmOk bytes /\
+                NV.Cram.Names.names_decode bytes = NV.Cram.Names.NmOk src.
+Proof. exact NV.Cram.NamesRt2.names_roundtrip. Qed.
+Print Assumptions c08_names_roundtrip.
+
+(* names_wf is satisfiable and says what the comment says *)
+Example c08_names_wf_example :
+  NV.Cram.NamesRt.names_wf [114; 49; 0; 114; 50; 0; 114; 50; 0; 113; 48; 48; 55; 0].
+Proof.
+  unfold NV.Cram.NamesRt.names_wf. repeat split; try (vm_compute; congruence); try (vm_compute; reflexivity).
+  - repeat constructor.
+  - vm_compute. repeat constructor.
+Qed.
+
+(* REFUTED for the known class `names-plus-sign-number-in-126th-token`: 62 x "a." then "a+5" (126
+   tokens, the last one "+5") is encoded with the remainder stored as the number 5 and decoded
+   without the '+' -- decode(encode(x)) <> x in the model exactly as in the implementation *)
+Theorem c08_names_roundtrip_refuted :
+  exists bytes out, NV.Cram.Names.names_encode NV.Cram.NamesTotal.plus_src = NV.Cram.Names.NmOk bytes /\
+                    NV.Cram.Names.names_decode bytes = NV.Cram.Names.NmOk out /\
+                    out <> NV.Cram.NamesTotal.plus_src.
+Proof. exact NV.Cram.NamesTotal.names_plus_sign_refuted. Qed.
+Print Assumptions c08_names_roundtrip_refuted.
 
 (* the full C08 statement, NOT proved beyond the parts above: AAC with EXT (bzip2), the name
    tokenizer and gzip/bzip2/lzma have no Gallina model; rANS Nx16, AAC and fqzcomp are proved
